@@ -53,6 +53,21 @@ var vTemplates = [...]struct{ pre, post string }{
 	41: {"CSeq:429496729", " A\r\nX"},
 	42: {"Expires: 429496729", "\r\nX"},
 	43: {"m:<a>;expires=429496729", "\r\nX"},
+	// windows in the interior of header-specific values
+	44: {"INVITE sip:a SIP/2.0\r\nContact: \"a", "\" <b>;q=0.5\r\n\r\n"},   // inside a quoted display name
+	45: {"INVITE sip:a SIP/2.0\r\nContact: <a>;expires=1", ", <b>\r\n\r\n"},   // after a parameter value
+	46: {"INVITE sip:a SIP/2.0\r\nFrom: a <b>;tag=x", ";y=z\r\n\r\n"},       // after the tag value
+	47: {"INVITE sip:a SIP/2.0\r\nFrom: <b>;", "=v\r\n\r\n"},               // a parameter name
+	48: {"INVITE sip:a SIP/2.0\r\nCSeq: 1", "INVITE\r\n\r\n"},              // between number and method
+	49: {"INVITE sip:a SIP/2.0\r\nTo: \"x\" <", ">;tag=t\r\n\r\n"},          // the URI inside <>
+	50: {"", " sip:a SIP/2.0\r\nf:a\r\n\r\n"},                              // the method
+	51: {"SIP/2.0 ", " OK\r\nf:a\r\n\r\n"},                                 // the status code
+	52: {"INVITE sip:a SIP/2.0\r\nP-Asserted-Identity: \"a\" <b>", "<c>\r\n\r\n"},
+	53: {"INVITE sip:a SIP/2.0\r\nm:<a>;q=", ";expires=5\r\n\r\n"},          // q value
+	54: {"INVITE sip:a SIP/2.0\r\nCall-ID:", "\r\nm: *\r\n\r\n"},
+	55: {"REGISTER sip:a SIP/2.0\r\nm:*", "\r\nExpires: 0\r\n\r\n"},        // after the star contact
+	56: {"SIP/2.0 200 O", "f:a\r\n\r\n"},                                  // end of a reply line
+	57: {"SIP/2.0 200 O", "X"},
 }
 
 // vTpl builds template t with a window of w symbolic bytes.
